@@ -63,8 +63,18 @@ def gen_scenario(rng, big=False):
     return {"cfg": cfg, "nsteps": nsteps, "hosts": hosts, "ctl": ctl}
 
 
+def gen_netfix(rng):
+    """turmoil-net fixture scenario (no turmoil::Sim): two servers + client under a jitter/drop rule."""
+    return {"cfg": {"tick_us": 1000, "random_order": False, "ipv6": False,
+                    "fs": {"sync_p": 0, "err_p": 0, "short_p": 0, "block": None}},
+            "nsteps": 0, "hosts": [], "ctl": {},
+            "netfix": {"rounds": rng.randrange(2, 7), "salt": rng.randrange(1, 1 << 30),
+                       "drop_pct": rng.choice([0, 0, 3, 10])}}
+
+
 def histogram(cases):
     h = {"cases": len(cases), "hosts": {}, "kinds": {}, "ctl": {}, "random_order": 0, "ipv6": 0, "fs_faults": 0}
+    h["netfix"] = sum(1 for c in cases if "netfix" in c)
     for c in cases:
         n = str(len(c["hosts"]))
         h["hosts"][n] = h["hosts"].get(n, 0) + 1
